@@ -5,7 +5,10 @@ package main
 // for lexer errors, the unexpected token for parser errors, the first token of the offending
 // sub-expression for semantic errors), or at the closing "}}" (end == true).
 
-import "strings"
+import (
+	"fmt"
+	"strings"
+)
 
 type c07ExprErr struct {
 	class string // lexer | parser | sema-var | sema-func | sema-prop | sema-type | avail | untrusted | template
@@ -158,6 +161,39 @@ func c07ExprCatalogue() []c07ExprErr {
 		c07ExprErr{class: "sema-sub", sub: "index/short", pre: "github[", bad: "github.event", post: "]", msg: "property access of object must be type of string but got \"object\"", abs: true, wrap: true},
 		c07ExprErr{class: "sema-sub", sub: "index/long", pre: "github.event[ ", bad: "github", post: "]", msg: "property access of object must be type of string but got", abs: true, wrap: true},
 	)
+	// operands with 2-4 consecutive "!" (0-3 blanks between them): a diagnostic anchored at such an
+	// operand is reported at its first character, the FIRST "!"; one anchored at the inner
+	// expression is reported after the last one
+	for bi, bangs := range []string{"!!", "! !", "!  ! !", "!!!", "!!!!", "!! !", "!   !"} {
+		nb := strings.Count(bangs, "!")
+		sub := func(t string) string {
+			return fmt.Sprintf("%s/%d%s", t, nb, map[bool]string{true: "b", false: ""}[strings.Contains(bangs, " ")])
+		}
+		boolTo := func(ord, to string) string { return notAssign(ord, "bool", to) }
+		out = append(out,
+			c07ExprErr{class: "sema-not", sub: sub("arg1"), pre: "startsWith(", bad: bangs + "github.event", post: ", 'a')", msg: boolTo("1st", "string"), abs: true, wrap: true},
+			c07ExprErr{class: "sema-not", sub: sub("arg2"), pre: "startsWith('abc', ", bad: bangs + "github.event", post: ")", msg: boolTo("2nd", "string"), abs: true, wrap: true},
+			c07ExprErr{class: "sema-not", sub: sub("arg2"), pre: "endsWith(github.ref,", bad: bangs + "1", post: " )", msg: boolTo("2nd", "string"), abs: true, wrap: true},
+			c07ExprErr{class: "sema-not", sub: sub("arg1"), pre: "fromJSON( ", bad: bangs + "github.sha", post: ")", msg: boolTo("1st", "string"), abs: true, wrap: true},
+			c07ExprErr{class: "sema-not", sub: sub("arg1"), pre: "format(", bad: bangs + "github.event", post: ", 1)", msg: boolTo("1st", "string"), abs: true, wrap: true},
+			c07ExprErr{class: "sema-not", sub: sub("arg1-overloads"), pre: "contains(", bad: bangs + "github.sha", post: ", 1)", msg: boolTo("1st", "string"), abs: true, wrap: true, also: []string{boolTo("1st", "array<any>")}},
+			c07ExprErr{class: "sema-not", sub: sub("arg1-overloads"), pre: "join(", bad: bangs + "github.event", post: ", ',')", msg: boolTo("1st", "array<string>"), abs: true, wrap: true,
+				extra: []c07ExprExtra{{"number of arguments is wrong. function \"join(array<string>) -> string\" takes 1 parameters but 2 arguments are given", 0}}},
+			c07ExprErr{class: "sema-not", sub: sub("rest2"), pre: "hashFiles('a', ", bad: bangs + "true", post: ")", msg: boolTo("2nd", "string"), abs: true, wrap: true, tag: "hashfiles"},
+			c07ExprErr{class: "sema-not", sub: sub("rest3"), pre: "hashFiles('a', 'b',  ", bad: bangs + "null", post: ", 'd')", msg: boolTo("3rd", "string"), abs: true, wrap: true, tag: "hashfiles"},
+			c07ExprErr{class: "sema-not", sub: sub("compare-left"), bad: bangs + "github.event.foo < 1", msg: "\"bool\" value cannot be compared to \"number\" value", abs: true},
+			c07ExprErr{class: "sema-not", sub: sub("compare-left"), pre: "1 == 1 && ", bad: bangs + "github.sha == github", msg: "\"bool\" value cannot be compared to", abs: true},
+			c07ExprErr{class: "sema-not", sub: sub("compare-left"), pre: "toJSON(", bad: bangs + "github.sha <= 2", post: ")", msg: "\"bool\" value cannot be compared to \"number\" value", abs: true},
+			c07ExprErr{class: "sema-not", sub: sub("index"), pre: "github[", bad: bangs + "github.sha", post: "]", msg: "property access of object must be type of string but got \"bool\"", abs: true, wrap: true},
+			c07ExprErr{class: "sema-not", sub: sub("index"), pre: "github.event[ ", bad: bangs + "1", post: "]", msg: "property access of object must be type of string but got \"bool\"", abs: true, wrap: true},
+			c07ExprErr{class: "sema-not", sub: sub("deref-receiver"), pre: "(", bad: bangs + "github", post: ").foo", msg: "receiver of object dereference \"foo\" must be type of object but got \"bool\"", abs: true, wrap: true},
+			c07ExprErr{class: "sema-not", sub: sub("filter-receiver"), pre: "( ", bad: bangs + "github.sha", post: ").*", msg: "receiver of object filtering `.*` must be type of array or object but got \"bool\"", abs: true, wrap: true},
+			// anchored at the INNER expression: after the last "!"
+			c07ExprErr{class: "sema-not", sub: sub("inner"), pre: "format('{0}', ", bad: bangs + "nope", in: len(bangs), post: ")", msg: "undefined variable \"nope\"", abs: true, wrap: true},
+			c07ExprErr{class: "sema-not", sub: sub("inner"), pre: "1 == 2 || ", bad: bangs + "github.sha.foo", in: len(bangs), msg: "receiver of object dereference \"foo\" must be type of object but got \"string\"", abs: true},
+		)
+		_ = bi
+	}
 	// untrusted input at argument / operand positions
 	out = append(out,
 		c07ExprErr{class: "untrusted", sub: "in-arg/2", pre: "format('{0}', ", bad: "github.event.issue.title", post: ")", msg: "\"github.event.issue.title\" is potentially untrusted", abs: true, tag: "script"},
